@@ -61,8 +61,11 @@ def run(ctx):
             nc = sum(1 for s in d["steps"] if s[0] == "C")
             for cr in ([list(range(nc))] if nc == 1 else [list(range(nc)), [0]]) if nc else []:
                 d2 = json.loads(json.dumps(d)); d2["crash"] = cr; scns.append(d2)
+            # the same script with sessions that are upgraded to a WebSocket (in flight until the WebSocket handler ends): the first one / all
+            for w in ([[0]] if nc == 1 else [[0], list(range(nc))]) if nc else []:
+                d3 = json.loads(json.dumps(d)); d3["crash"] = []; d3["ws"] = w; scns.append(d3)
     for d in scns:
-        d.setdefault("crash", [])
+        d.setdefault("crash", []); d.setdefault("ws", [])
     for n, d in enumerate(scns):
         d["id"] = n
     inp = ctx.write_ndjson("scenarios.ndjson", scns)
